@@ -98,8 +98,14 @@ def _min_image(H, ppp, d):
     return out, margin
 
 
-def _neigh_cutoff(c, pos, rc2):
-    H = [[F(c["H"][0]), F(c["H"][1])], [F(c["H"][2]), F(c["H"][3])]]
+def Hof(c, t):
+    """the cell (flat list of four decimal strings) of frame t: `Hs` for a sheared trajectory, else the common `H`"""
+    return c["Hs"][t] if c.get("Hs") else c["H"]
+
+
+def _neigh_cutoff(c, pos, rc2, t=0):
+    h = Hof(c, t)
+    H = [[F(h[0]), F(h[1])], [F(h[2]), F(h[3])]]
     ppp = [int(x) for x in c["ppp"]]
     P = [[F(x), F(y)] for x, y in pos]
     rows = []
@@ -133,6 +139,9 @@ def gen_random(rng):
     if rng.random() < 0.3:
         frames = [common.unfold_positions(rng, fr, [[Lx, "0"], [xy, Ly]], ppp) for fr in frames]      # unfolded (xu) coordinates
     c["pos"] = frames
+    if cell == "tri" and T >= 2 and rng.random() < 0.7:
+        # a sheared trajectory: same box lengths, another tilt in every frame
+        c["Hs"] = [c["H"]] + [[Lx, "0", dec(rng, -2, 2, 2), Ly] for _ in range(T - 1)]
     mode = rng.choice(["subset", "subset", "cutoff"])
     c["nmode"] = mode
     nl = []
@@ -140,7 +149,7 @@ def gen_random(rng):
         if mode == "subset":
             nl.append(_neigh_random(rng, N, allow_self=rng.random() < 0.03))
         else:
-            rows = _neigh_cutoff(c, frames[t], F(dec(rng, 2, 4, 1)) ** 2)
+            rows = _neigh_cutoff(c, frames[t], F(dec(rng, 2, 4, 1)) ** 2, t)
             for i, r in enumerate(rows):      # nobody isolated (the empty mean is nan in numpy, 0 in the model)
                 if not r:
                     rows[i] = [rng.choice([j for j in range(N) if j != i])]
@@ -252,6 +261,8 @@ def rotate(c, cs):
     r["pos"] = [[rot(x, y) for x, y in fr_] for fr_ in c["pos"]]
     h = c["H"]
     r["H"] = rot(h[0], h[1]) + rot(h[2], h[3])
+    if c.get("Hs"):
+        r["Hs"] = [rot(g[0], g[1]) + rot(g[2], g[3]) for g in c["Hs"]]
     r["cell"] = "rot"
     r["rot"] = [str(co), str(si)]
     return r
@@ -293,9 +304,10 @@ def write_files(c, tmp):
 def make_snapshots(c):
     from PyMatterSim.reader.reader_utils import SingleSnapshot, Snapshots
     snaps = []
-    H = np.array([[float(c["H"][0]), float(c["H"][1])], [float(c["H"][2]), float(c["H"][3])]])
     box = np.array([float(x) for x in c["box"]])
     for t in range(c["T"]):
+        h = Hof(c, t)
+        H = np.array([[float(h[0]), float(h[1])], [float(h[2]), float(h[3])]])
         pos = np.array([[float(x), float(y)] for x, y in c["pos"][t]])
         snaps.append(SingleSnapshot(timestep=c["steps"][t], nparticle=c["N"], particle_type=np.ones(c["N"], dtype=int),
                                     positions=pos, boxlength=box.copy(),
@@ -362,7 +374,7 @@ def op_phi(c, t):
         if w:
             r += w[i]
         rows.append(" ".join(r))
-    return "boo2d {} {} {} {} {} {} {}".format(c["l"], 1 if w else 0, c["N"], " ".join(c["H"]), " ".join(c["ppp"]),
+    return "boo2d {} {} {} {} {} {} {}".format(c["l"], 1 if w else 0, c["N"], " ".join(Hof(c, t)), " ".join(c["ppp"]),
                                                 " ".join(x for p in c["pos"][t] for x in p), " ".join(rows))
 
 
@@ -410,7 +422,8 @@ def arr_close(a, b, tol=1e-9):
 def spec_phi(c, t):
     """ψ_i = Σ_m (w_m/Σ|w|) (z_m/|z_m|)^l or mean_m (z_m/|z_m|)^l over the minimum-image bonds; exact geometry.
     returns (values, margin, crosses, zero_bond)"""
-    H = [[F(c["H"][0]), F(c["H"][1])], [F(c["H"][2]), F(c["H"][3])]]
+    h = Hof(c, t)
+    H = [[F(h[0]), F(h[1])], [F(h[2]), F(h[3])]]
     ppp = [int(x) for x in c["ppp"]]
     P = [[F(x), F(y)] for x, y in c["pos"][t]]
     nl, w = truncated(c, t)
@@ -502,6 +515,8 @@ def spec_scorr(c, phi):
     gA = np.zeros(maxbin)
     edges2 = [(b * rd) ** 2 for b in range(maxbin + 1)]
     for t in range(T):
+        h = Hof(c, t)
+        H = [[F(h[0]), F(h[1])], [F(h[2]), F(h[3])]]
         P = [[F(x), F(y)] for x, y in c["pos"][t]]
         for i in range(N):
             for j in range(N):
@@ -624,7 +639,7 @@ def run_cases(run, cases, count=True):
                     lines.append(op_tavg(c, mode, phi)); index.append((ci, "tavg", mode))
             if "tcorr" in real:
                 lines.append(op_tcorr(c, phi)); index.append((ci, "tcorr", None))
-            if "scorr" in real:
+            if "scorr" in real and not c.get("Hs"):      # (the driver op takes one cell; sheared cases are judged by the Spec)
                 lines.append(op_scorr(c, phi)); index.append((ci, "scorr", None))
     outs = common.drive(lines)
     dis, mon = [], []
